@@ -551,3 +551,10 @@ def r07_12(ctx):
     from .c16 import r16_5
 
     r16_5(ctx)
+
+
+@rule("R07.13", "C07", "an operand is resolved for the behaviour that names it: no operand object (with its access class and written flag) of an earlier compilation survives an entry point - every entry point resets the transformer on every exit", min_instances=2)
+def r07_13(ctx):
+    from .c14 import r14_2
+
+    r14_2(ctx)
